@@ -55,10 +55,21 @@ After(I, v, src) == IF Instr(I, v) THEN << <<"interact", v, "none", src>>, <<"re
 \* subscript) are not variable bindings.  LoopTargets = "names-only" is the tree before fix d4bbee3: anything but
 \* names and tuples of names raised NotImplementedError and the whole function could not be instrumented.
 CONSTANTS LoopTargetsSupported, WithRewritten, FallOffRewritten, MatchCapturesKnown
-RECURSIVE GenI(_, _, _)
-GenI(t, src, I) ==
+\* The interactions are generated AFTER Python has stored into the whole target: `v = interact(v)` reads the variable as it is then -
+\* for a name that occurs twice in one target (for a, a in ...) that is the value of its LAST occurrence, both times.
+FinalSrc(root, rootsrc, v) == LET b == SelectSeq(PyStore(root, rootsrc), LAMBDA a : a[1] = "bind" /\ a[2] = v) IN b[Len(b)][3]
+RECURSIVE GenR(_, _, _, _, _)
+GenR(t, src, I, root, rootsrc) ==
+  CASE t.t = "name" -> After(I, t.v, FinalSrc(root, rootsrc, t.v))
+    [] t.t = "tuple" -> Cat(LAMBDA i : GenR(t.elts[i], Append(src, IF t.elts[i].t = "star" THEN "rest" ELSE ToString(EltIx(t, i))), I, root, rootsrc), Len(t.elts))
+    [] t.t = "star" /\ LoopTargetsSupported -> After(I, t.v, FinalSrc(root, rootsrc, t.v))
+    [] t.t \in {"attr", "sub"} /\ LoopTargetsSupported -> <<>>
+    [] OTHER -> << <<"notimplemented">> >>
+GenI(t, src, I) == GenR(t, src, I, t, src)
+RECURSIVE GenIOld(_, _, _)
+GenIOld(t, src, I) ==
   CASE t.t = "name" -> After(I, t.v, src)
-    [] t.t = "tuple" -> Cat(LAMBDA i : GenI(t.elts[i], Append(src, IF t.elts[i].t = "star" THEN "rest" ELSE ToString(EltIx(t, i))), I), Len(t.elts))
+    [] t.t = "tuple" -> Cat(LAMBDA i : GenIOld(t.elts[i], Append(src, IF t.elts[i].t = "star" THEN "rest" ELSE ToString(EltIx(t, i))), I), Len(t.elts))
     [] t.t = "star" /\ LoopTargetsSupported -> After(I, t.v, src)
     [] t.t \in {"attr", "sub"} /\ LoopTargetsSupported -> <<>>
     [] OTHER -> << <<"notimplemented">> >>
@@ -83,6 +94,9 @@ X2(st, I) ==
     [] st.s = "falloff" ->                                                 \* since fix a77403d the body ends with an instrumented `return None`
          (IF FallOffRewritten /\ Instr(I, "#value") THEN << <<"interact", "#value", "none", <<"None">>>> >> ELSE <<>>) \o Py2(st)
 
+RECURSIVE TNames(_)
+TNames(t) == CASE t.t \in {"name", "star"} -> <<t.v>> [] t.t = "tuple" -> Cat(LAMBDA i : TNames(t.elts[i]), Len(t.elts)) [] OTHER -> <<>>
+Repeats(t) == \E i, j \in DOMAIN TNames(t) : i # j /\ TNames(t)[i] = TNames(t)[j]
 \* ------------------------------------------------------------------ A level
 Erase2(acts) == SelectSeq(acts, LAMBDA a : a[1] \notin {"interact", "rebind"})
 Transparent2(st, I) == Erase2(X2(st, I)) = Py2(st)
@@ -98,6 +112,7 @@ Signature2(st, I) ==
   ELSE IF st.s = "decl" /\ Instr(I, st.v) THEN {"DeclaredOnlySupplied"}          \* the documented exception of C01 (C16 decides it)
   ELSE (IF ~Transparent2(st, I) THEN {"OtherOrder"} ELSE {}) \cup
        (IF Stream2(st, I) THEN {}
+        ELSE IF st.s \in {"for", "with"} /\ Repeats(st.t) /\ (st.s = "for" \/ WithRewritten) THEN {"RepeatedNameFinalValue"}
         ELSE IF st.s = "with" THEN {"WithTargetNoEvent"}
         ELSE IF st.s = "falloff" THEN {"FallOffNoValue"}
         ELSE {"StreamDiffers"})
